@@ -206,6 +206,11 @@ def m_C16(tier):
             for alg in ALL:
                 for b in ('file', 'dir'):
                     cfgs.append(C(mod, alg, None if alg in ('no', 'inf') else 1, False, 'str', b, nargs=2, spellings=1))
+    # safe decorators with arguments the keymap cannot key
+    for alg in ALL:
+        for km in ('default', 'raw', 'hash', 'pickle', 'md5', 'strnf') if tier == 'thorough' else ('default', 'raw', 'hash', 'pickle', 'md5'):
+            for backend, init in (('none', 'empty'), ('dict', 'seeded_archive')) + ((('file', 'empty'),) if tier == 'thorough' else ()):
+                cfgs.append(C('safe', alg, None if alg in ('no', 'inf') else 1, False, km, backend, init, nargs=2, spellings=1, unkeyable=True))
     return cfgs
 
 
@@ -274,7 +279,10 @@ def ev_for(prop, cfg, tier):
     if prop == 'C15':
         return base_events(n, sp, mgmt=True, raises=True, introspect=False) + [('info',), ('lookup', 0)]
     if prop == 'C16':
-        return base_events(n, sp, mgmt=True, raises=True)
+        ev = base_events(n, sp, mgmt=True, raises=True)
+        if cfg['module'] == 'safe' and cfg.get('unkeyable'):
+            ev = call_events(n, 1) + [('callu', i) for i in range(6)] + [('dump',), ('clear',), ('arch', False), ('arch', True)]
+        return ev
     if prop == 'C18':
         return base_events(n, sp, mgmt=True, introspect=True) + [('raise', 0, 'Boom')]
     if prop == 'C20':
